@@ -6,7 +6,7 @@ Model of the Lie-group maps of `geometry_tools/lie/core.py` (`sl2_irrep`, `sl2_t
 
 * polynomial maps: over an arbitrary commutative ring `R` (ℕ-safe exponents);
 * maps whose literal conjugating matrices contain `1/2`: over a field `K`;
-* complex matrices: matrices over `Cx R` (pairs over `R`, `GT.Cx`);
+* complex matrices: matrices over `Cx R` (pairs over `R`, `GT.Lie.Cx`);
 * `np.linalg.inv` is a contract: the inverse is an *argument* (`Ainv`) or a literal matrix
   proved to be the inverse in `GT.Lemmas.Lie`;
 * `o_to_pgl` compares and takes square roots: ordered field, supplied root function `r`.
@@ -27,7 +27,7 @@ import Mathlib.Tactic.Ring
 
 open Matrix Finset BigOperators
 
-namespace GT
+namespace GT.Lie
 
 /-! ## complex numbers as pairs over a commutative ring -/
 
@@ -93,8 +93,6 @@ instance : CommRing (Cx R) where
   zsmul := zsmulRec
 
 end Cx
-
-namespace Lie
 
 variable {R : Type*} [CommRing R]
 
@@ -205,6 +203,13 @@ def mink21 : Matrix (Fin 3) (Fin 3) K := Matrix.diagonal ![-1, 1, 1]
 def oToPglAd (S : Matrix (Fin 3) (Fin 3) K) : Matrix (Fin 3) (Fin 3) K :=
   killingConjInv * perm210 * S * (perm210 * killingConj)
 
+/-- `A_d` of `o_to_pgl(S, bilinear_form=B)` for a general form of signature (2,1):
+`W, Winv = utils.diagonalize_form(B, "minkowski", reverse=True, with_inverse=True)` are contract
+outputs (`W * Winv = 1`, `Wᵀ B W = diag(1,1,-1)`), `conj = W · inv(killing_conj/2)`,
+`conj_i = (killing_conj/2) · Winv`.  The default form has `W = Winv = perm210` (`oToPglAd`). -/
+def oToPglAdForm (W Winv S : Matrix (Fin 3) (Fin 3) K) : Matrix (Fin 3) (Fin 3) K :=
+  killingConjInv * Winv * S * (W * killingConj)
+
 variable [LinearOrder K]
 
 /-- entry and sign extraction of `o_to_pgl` **on the pinned tree**:
@@ -247,6 +252,10 @@ def normSign (M : Matrix (Fin 3) (Fin 3) K) : Matrix (Fin 3) (Fin 3) K :=
 /-- repaired `lie.o_to_pgl(S)` (default form) = `Isometry.to_sl2` -/
 def oToPgl (r : K → K) (S : Matrix (Fin 3) (Fin 3) K) : Matrix (Fin 2) (Fin 2) K :=
   extract r (normSign (oToPglAd S))
+
+/-- repaired `lie.o_to_pgl(S, bilinear_form=B)` with the diagonalising pair `W, Winv` of `B` -/
+def oToPglForm (r : K → K) (W Winv S : Matrix (Fin 3) (Fin 3) K) : Matrix (Fin 2) (Fin 2) K :=
+  extract r (normSign (oToPglAdForm W Winv S))
 
 end so21
 
@@ -297,5 +306,4 @@ def mink31 : Matrix (Fin 4) (Fin 4) K := Matrix.diagonal ![-1, 1, 1, 1]
 
 end so31
 
-end Lie
-end GT
+end GT.Lie
